@@ -12,7 +12,7 @@ func RedactSQLQuery(sql string) (string, error) {
 		return "", err
 	}
 
-	Normalize(stmt, bv, ValueMask)
+	Redact(stmt, bv, ValueMask)
 
 	return comments.Leading + String(stmt) + comments.Trailing, nil
 }
